@@ -555,6 +555,48 @@ def run_r8(ctx, rule):
         rule.check(has_zero and has_odd, "lit/assigning-even-nonzero", "a defining literal is rejected when it is 0 or odd", f.loc())
     # clause_lits range is inclusive: RangeInclusive (checked by R1) ; var_count uses `>` (R3)
 
+# ---- R10 ------------------------------------------------------------------------------------------
+def run_r10(ctx, rule):
+    """The whole-file AIGER parsers read the justice section as one stream of literals and file them under the
+    properties by the sizes declared before (`justice_property_sizes`).  A literal may be filed under property i only
+    if property i does not yet hold its declared number -- tested with the *current* i: the push is dominated by the
+    edge `properties[i].len() != sizes[i]` and i is not changed in between.  (A size of zero must be skipped, however
+    many of them follow each other.)"""
+    facts = ctx.facts
+    n = 0
+    for mod in ("ascii", "binary"):
+        fs = [g for i, g in facts.fns.items() if norm(i) == "flussab_aiger::%s::Parser::parse" % mod]
+        if not fs:
+            rule.bad("%s/parse-anchor" % mod, "anchor missing: %s::Parser::parse" % mod, kind="anchor-missing")
+            continue
+        f = fs[0]
+        sy = sym(f)
+        for bb, t in f.calls():
+            if not norm(util.cname(t)).endswith("Vec::push") or not t["args"]:
+                continue
+            e = sy.operand(t["args"][0])
+            for _ in range(3):
+                if e[0] == "l":
+                    e = sy.origin(e)
+            e = strip_bb(e)
+            if not (e[0] == "call" and e[2].rsplit("::", 1)[-1] == "index_mut" and len(e[3]) == 2 and e[3][0][0] == "f" and e[3][0][2] == "justice_properties"):
+                continue
+            n += 1
+            coll, idx = e[3]
+
+            def is_len(x):
+                x = strip_bb(x)
+                return x[0] == "call" and x[2].rsplit("::", 1)[-1] == "len" and x[3] and x[3][0][0] == "call" and x[3][0][2].rsplit("::", 1)[-1] == "index" and x[3][0][3] == (coll, idx)
+
+            def is_size(x):
+                x = strip_bb(x)
+                return x[0] == "call" and x[2].rsplit("::", 1)[-1] == "index" and len(x[3]) == 2 and x[3][1] == idx and x[3][0] != coll
+
+            g = guards.holds(f, bb, lambda fa: fa[0] == "cmp" and fa[1] in ("Ne", "Lt") and ((is_len(fa[2]) and is_size(fa[3])) or (fa[1] == "Ne" and is_len(fa[3]) and is_size(fa[2]))))
+            rule.check(bool(g), "%s/justice/filed-under-open-property" % mod, "%s::Parser::parse files a justice literal under property %s only behind the test that this property does not yet hold its declared number (%s)" % (mod, sy.show(idx), guards.show_fact(f, g[1])[:90] if g else "no such test of the current index dominates the push"), f.loc(bb))
+    if n < 2:
+        rule.bad("justice/sites", "fewer than 2 justice distribution sites found (ascii and binary counted)", kind="anchor-missing")
+
 
 def run(ctx):
     r1 = ctx.rule("C06-R1", "range check before the lossy conversion; from_code only on checked codes; lossy casts listed with their bound", floor=27)
@@ -567,6 +609,8 @@ def run(ctx):
     run_r4(ctx, r4)
     r5 = ctx.rule("C06-R5", "AIGER section counters start from the matching header count and end the section at zero", floor=30)
     run_r5(ctx, r5)
+    r10 = ctx.rule("C06-R10", "justice literals are filed under a property only while it holds fewer than its declared number (test of the current index dominates the push)", floor=2)
+    run_r10(ctx, r10)
     r6 = ctx.rule("C06-R6", "binary delta <= reference code; varint overflow is rejected", floor=2)
     run_r6(ctx, r6)
     r7 = ctx.rule("C06-R7", "declared maxima of the literal types fit their integer type", floor=10)
